@@ -286,7 +286,7 @@ def sim_collect(rep, prop, tier, rng, seed, gen_kwargs_list, n_quick, n_thorough
                input_distribution=stats_total, samples=[dict(script=batch[-1][:25], first_observations=results[-1][1][:8])])
     sim_assumptions = ["single-component rules; change-stamp distances below 2^31; fewer than 2^16 mutate messages in flight per client",
                        "the distribution of a tick's mutated entities over mutate messages is an oracle input of the model (validated to be a partition); Layer 0 (C10) proves the real split loop",
-                       "open known-finding classes are outside the generated stream by construction: D02 periodic, D16 recursive client despawn, D17 placeholder orphan, D19 tick 0, D22 visibility after marker removal, D25 reference target re-replicated"] + list(extra_assumptions)
+                       "open known-finding classes are outside the generated stream by construction: D02 periodic, D16 recursive client despawn, D17 placeholder orphan, D19 tick 0, D31 first update at a tick above 2^31 overtaken, D22 visibility after marker removal, D25 reference target re-replicated"] + list(extra_assumptions)
     if top_level:
         rep.cov.update(cov)
         rep.assumptions = sim_assumptions
